@@ -174,6 +174,27 @@ def gen(rng, tier):
         if op[0] == "send" and op[2] is None:
             op[2] = f"{T}:{d}:{closer_aid}:{n}"
             n += 1
+    if backend != "main_thread_only" and rng.random() < 0.25:
+        # unrelated traffic of large frames on a sibling channel, written by the closing side at the same time:
+        # the close and the items before it share the connection with them
+        big = [["bytes", 70000], ["bytes", 200000], ["str", 70000, "a"]]
+        NW = new_actor("w")
+        actors[NW]["chan"] = "n0"
+        NI = new_actor("i")
+        nn = rng.randrange(1, 4)
+        if closer == "w":
+            actors[NW]["ops"] = [["send", "n0", f"n0:w2i:{NW}:{j}", rng.choice(big)] for j in range(nn)]
+            actors[NI]["ops"] = [["drain", "n0"]]
+        else:
+            actors[NW]["ops"] = [["drain", "n0"]]
+            actors[NI]["ops"] = [["send", "n0", f"n0:i2w:{NI}:{j}", rng.choice(big)] for j in range(nn)] + [["close", "n0"]]
+        main.insert(1, ["exec", "n0", NW, gwi])
+        main.insert(2, ["spawn", NI])
+        main.append(["join", NI, 900])
+        if knobs["pipe_cap"] < 4096:
+            knobs["pipe_cap"] = 4096
+        if knobs.get("chunk") == "one":
+            knobs["chunk"] = "random"
     if not (T == "c0" and kind in ("drop", "dropcb")):
         main.append(["waitclose", "c0", 900])
     main.append(["terminate", 10.0])
